@@ -1,6 +1,7 @@
 import MuscleModel.Props.C06
 import MuscleModel.Engines.Srv
 import MuscleModel.Reflector.OrderProofs
+import MuscleModel.Reflector.WorkBoundProofs
 
 /-!
 # C07 — One client's traffic can never hang or crash the server
@@ -151,5 +152,166 @@ example : ∀ e ∈ exOdEvs, e ≠ OdEv.detach 1 := by
 example : (exOdSv0.sess? 1).map (·.inbox) = some [] := by decide
 example : ((odRunEvs exOdSv0 exOdEvs).sess? 1).map (·.inbox) =
     some ["MSG 1234 from=0 tag=7", "PONG 3", "MSG 1234 from=0 tag=8"] := by decide
+
+end Muscle.Props.C07
+
+
+/-!
+# C07, third part — bounded work: one traversal records at most one visit per node of the tree
+
+Lemmas: `Reflector/WorkBoundProofs.lean` (prefix `wb_`).  Every data command (`set`, `rm`, `sub`, `unsub`, `ins`, `reorder`, `send`, `find`)
+runs the wildcard traversal `doTraversal` (`NodePathMatcher::DoTraversal`, Reflector/Traverse.lean) through `travGlobal` / `travSession`; its
+result is the list of recorded visits, and the handlers do one unit of work (one node update, one `deliver`, …) per visit.
+
+PROVED, for EVERY tree (sibling names need not even be distinct), matcher, callback, `useFilters`, root depth and fuel — no hypothesis:
+* the number of recorded visits is at most the number of nodes strictly below the traversal root within `fuel` levels,
+  `(descendants fuel node []).length`, which is at most `node.size - 1` (`Node.size`: all nodes of the tree, root included).  The bound does
+  NOT grow with the number of patterns: `CheckChildForTraversal` hands a child to the callback at most once (`matched`) and descends into
+  it at most once (`recursed`) however many entries match it, and the literal-lookup path handles each child name at most once
+  (`alreadyDid`).  (With the descent rule as it was before the repair of F27 the same holds: the flags were already there.)
+  The bound is attained (`*`, `*/*`, `*/*/*` on a three-level tree: example below), so it is the tightest bound in terms of the tree alone.
+* every recorded path has between 1 and `fuel` names: a hostile chain of nodes deeper than `fuelDepth` (110 > MUSCLE_MAX_NODE_DEPTH) is not
+  followed; the recursion depth of `travAux` is its fuel by construction (structural recursion on the fuel).
+* `send` (one client-to-client Message): when the session ids are pairwise distinct (every reachable state: `session_ids_distinct` of C05,
+  Props/C05Reach.lean), all inboxes together (`wbTotal`) grow by at most one line per recorded visit of `route`, i.e. by at most the
+  number of nodes below the root, and by at most the number of sessions in the broadcast fallback — one hostile Message enqueues at most
+  `max (nodes below the root) (sessions)` copies (C05 sharpens this to one copy per selected session).
+
+NOT proved here (stays with the harness: `wping` witness after every hostile command, 20 s alarm per op, ASan/UBSan): wall-clock time; the
+cost of one pattern test (`regcomp`/`regexec` for a clause, C15) and of one filter evaluation (C14); the number of pattern tests per child,
+which is at most the number of entries of the matcher (`pmNumEntries`, the length of the list `checkEntries` recurses on — by construction,
+not stated as a theorem); memory.
+-/
+
+namespace Muscle.Props.C07
+open Muscle Muscle.Reflector Muscle.Eng.SrvEngine
+
+/-- **Bounded number of visits.**  Any matcher, callback, tree, root depth, fuel: at most one recorded visit per node strictly below the
+    traversal root (within `fuel` levels), hence fewer than `node.size`. -/
+theorem traversal_visits_bounded (pm : PM) (useFilters : Bool) (rd : Nat) (cb : Visit → Nat → Node → Bool × Int) (node : Node)
+    (fuel : Nat) :
+    (doTraversal pm useFilters rd cb node fuel).length ≤ (descendants fuel node []).length ∧
+    (descendants fuel node []).length + 1 ≤ node.size := by
+  rw [wb_descendants_length]
+  exact ⟨(wb_travAux _ fuel node [] rd).1, wb_cnt_lt_size fuel node⟩
+
+/-- the form "nodes × patterns": weaker than `traversal_visits_bounded`, which does not depend on the matcher at all -/
+theorem traversal_visits_bounded_entries (pm : PM) (useFilters : Bool) (rd : Nat) (cb : Visit → Nat → Node → Bool × Int) (node : Node)
+    (fuel : Nat) :
+    (doTraversal pm useFilters rd cb node fuel).length + 1 ≤ node.size * max 1 (pmNumEntries pm) := by
+  obtain ⟨h1, h2⟩ := traversal_visits_bounded pm useFilters rd cb node fuel
+  have : node.size * 1 ≤ node.size * max 1 (pmNumEntries pm) := Nat.mul_le_mul_left _ (Nat.le_max_left ..)
+  omega
+
+/-- once the fuel covers the tree (`fits fuel₀ node`) the bound is the number of nodes below the root, whatever the fuel -/
+theorem traversal_visits_bounded_fits (pm : PM) (useFilters : Bool) (rd : Nat) (cb : Visit → Nat → Node → Bool × Int) (node : Node)
+    (fuel₀ j : Nat) (hfit : fits fuel₀ node = true) :
+    (doTraversal pm useFilters rd cb node (fuel₀ + j)).length ≤ (descendants fuel₀ node []).length := by
+  have := (traversal_visits_bounded pm useFilters rd cb node (fuel₀ + j)).1
+  rwa [descendants_stable fuel₀ node [] hfit j] at this
+
+/-- **Bounded depth.**  Every recorded path (relative to the traversal root) has at least 1 and at most `fuel` names. -/
+theorem traversal_depth_bounded (pm : PM) (useFilters : Bool) (rd : Nat) (cb : Visit → Nat → Node → Bool × Int) (node : Node)
+    (fuel : Nat) :
+    ∀ v ∈ doTraversal pm useFilters rd cb node fuel, 1 ≤ v.length ∧ v.length ≤ fuel := by
+  intro v hv
+  obtain ⟨_, h2, h3⟩ := (wb_travAux _ fuel node [] rd).2 v hv
+  simp only [List.length_nil] at h2 h3
+  omega
+
+/-- the traversal from the global root that `set` (absolute paths), `sub`, `unsub`, `send`, `find` run -/
+theorem travGlobal_bounded (sv : Server) (pm : PM) (useFilters : Bool) (cb : Visit → Nat → Node → Bool × Int) :
+    (travGlobal sv pm useFilters cb).length ≤ (descendants fuelDepth sv.root []).length ∧
+    (travGlobal sv pm useFilters cb).length + 1 ≤ sv.root.size ∧
+    ∀ v ∈ travGlobal sv pm useFilters cb, 1 ≤ v.length ∧ v.length ≤ fuelDepth := by
+  obtain ⟨h1, h2⟩ := traversal_visits_bounded pm useFilters 0 cb sv.root fuelDepth
+  exact ⟨h1, by unfold travGlobal; omega, traversal_depth_bounded pm useFilters 0 cb sv.root fuelDepth⟩
+
+/-- the traversal from a session's own node that `set`, `rm`, `ins`, `reorder`, `find` (relative paths) run: bounded by the session's own
+    subtree `n`; the recorded (absolute) paths have between 3 and `2 + fuelDepth` names -/
+theorem travSession_bounded (sv : Server) (s : Sess) (pm : PM) (cb : Visit → Nat → Node → Bool × Int) :
+    (∀ n, getNode sv (sessNames s) = some n →
+      (travSession sv s pm cb).length ≤ (descendants fuelDepth n []).length ∧ (travSession sv s pm cb).length + 1 ≤ n.size) ∧
+    (getNode sv (sessNames s) = none → travSession sv s pm cb = []) ∧
+    ∀ v ∈ travSession sv s pm cb, 3 ≤ v.length ∧ v.length ≤ 2 + fuelDepth := by
+  refine ⟨?_, ?_, ?_⟩
+  · intro n hn
+    obtain ⟨h1, h2⟩ := traversal_visits_bounded pm true 2 cb n fuelDepth
+    unfold travSession
+    rw [hn]
+    simp only [List.length_map]
+    exact ⟨h1, by omega⟩
+  · intro hn
+    unfold travSession
+    rw [hn]
+  · intro v hv
+    unfold travSession at hv
+    split at hv
+    · cases hv
+    · rename_i n hn
+      obtain ⟨v', hv', rfl⟩ := List.mem_map.1 hv
+      have := traversal_depth_bounded pm true 2 cb n fuelDepth v' hv'
+      simp only [List.length_append, sessNames, List.length_cons, List.length_nil]
+      omega
+
+/-- **Deliveries of `route`.**  Session ids pairwise distinct: the lines queued for all clients together grow by at most one per recorded
+    visit, hence by at most the number of nodes below the root. -/
+theorem route_deliveries_bounded (sv : Server) (sid : Nat) (pm : PM) (what : String) (hnd : (sv.sessions.map (·.sid)).Nodup) :
+    wbTotal (route sv sid pm what) ≤ wbTotal sv + (travGlobal sv pm true (fun _ _ _ => (true, 1))).length ∧
+    wbTotal (route sv sid pm what) ≤ wbTotal sv + (descendants fuelDepth sv.root []).length ∧
+    wbTotal (route sv sid pm what) + 1 ≤ wbTotal sv + sv.root.size := by
+  have h := (wb_route sv sid pm what hnd).1
+  obtain ⟨b1, b2, _⟩ := travGlobal_bounded sv pm true (fun _ _ _ => (true, 1))
+  exact ⟨h, by omega, by omega⟩
+
+/-- **Deliveries of one client-to-client Message**, whichever of the three branches of `sendMsg` it takes (explicit keys, default route,
+    broadcast): at most `max (nodes below the root) (sessions)` lines are queued, for all clients together. -/
+theorem send_deliveries_bounded (sv : Server) (sid tag : Nat) (keys : List Bytes) (hnd : (sv.sessions.map (·.sid)).Nodup) :
+    wbTotal (runCmd sv sid (.send tag keys)) ≤
+      wbTotal sv + max (descendants fuelDepth sv.root []).length sv.sessions.length := by
+  show wbTotal (sendMsg sv sid tag keys) ≤ _
+  have hl := Nat.le_max_left (descendants fuelDepth sv.root []).length sv.sessions.length
+  have hr := Nat.le_max_right (descendants fuelDepth sv.root []).length sv.sessions.length
+  unfold sendMsg
+  split
+  · omega
+  · simp only []
+    split
+    · have := (route_deliveries_bounded sv sid (pmOfKeys (keys.map (fun k => (k, none))) (some defaultPrefix))
+        ("MSG 1234 from=" ++ toString sid ++ " tag=" ++ toString tag) hnd).2.1
+      omega
+    · split
+      · rename_i s _ _ _
+        have := (route_deliveries_bounded sv sid s.route ("MSG 1234 from=" ++ toString sid ++ " tag=" ++ toString tag) hnd).2.1
+        omega
+      · refine Nat.le_trans (wb_fold _ ?_ sv.sessions sv hnd).1 (by omega)
+        intro sv1 t h1
+        split
+        · exact wb_deliver _ _ _ h1
+        · exact ⟨by omega, rfl⟩
+
+/-! Non-vacuity: the bound is attained.  The three-level tree of C05 (one host, two sessions, one node each: 5 nodes below the root, 6 in
+    all) and the matcher `*`, `*/*`, `*/*/*`: five visits.  With 9 patterns that all match everything: still five visits. -/
+def exWbAll : PM :=
+  [(1, [{ path := [42], clauses := [[42]], filter := none }]),
+   (2, [{ path := [42, 47, 42], clauses := [[42], [42]], filter := none }]),
+   (3, [{ path := [42, 47, 42, 47, 42], clauses := [[42], [42], [42]], filter := none }])]
+def exWbMany : PM :=
+  [(1, [{ path := [42], clauses := [[42]], filter := none }, { path := [42, 42], clauses := [[42]], filter := none },
+        { path := [63], clauses := [[42]], filter := none }]),
+   (2, [{ path := [42, 47, 42], clauses := [[42], [42]], filter := none }, { path := [1], clauses := [[42], [42]], filter := none },
+        { path := [2], clauses := [[42], [42]], filter := none }]),
+   (3, [{ path := [42, 47, 42, 47, 42], clauses := [[42], [42], [42]], filter := none },
+        { path := [3], clauses := [[42], [42], [42]], filter := none }, { path := [4], clauses := [[42], [42], [42]], filter := none }])]
+
+example : (doTraversal exWbAll true 0 cbContinue C05.exSrvTree 4).length = 5 ∧
+    (descendants 4 C05.exSrvTree []).length = 5 ∧ C05.exSrvTree.size = 6 ∧ fits 3 C05.exSrvTree = true ∧
+    pmNumEntries exWbMany = 9 ∧ (doTraversal exWbMany true 0 cbContinue C05.exSrvTree 4).length = 5 ∧
+    (doTraversal exWbAll true 0 cbContinue C05.exSrvTree 2).length = 3 ∧ (descendants 2 C05.exSrvTree []).length = 3 ∧
+    (doTraversal exWbAll true 0 cbContinue C05.exSrvTree 4).map List.length = [1, 2, 3, 2, 3] := by decide
+
+/-- deliveries: three sessions on two hosts; session 0 broadcasts: 2 copies (sessions 1 and 2), within the bound (3 sessions). -/
+example : (C05.exBcSv.sessions.map (·.sid)).Nodup ∧ wbTotal C05.exBcSv = 0 ∧ C05.exBcSv.sessions.length = 3 ∧
+    wbTotal (runCmd C05.exBcSv 0 (.send 7 [])) = 2 := by decide
 
 end Muscle.Props.C07
